@@ -348,7 +348,7 @@ def edges_stage(tier_, key):
                             lines = open(fp).read().split("\n")
                         edge = json.loads(lines[m[1] - 1])
                         findings.append({"kind": m[0], "tag": m[2], "why": m[3] if isinstance(m[3], str) else json.dumps(m[3]),
-                                         "config": tag, "edge": {k: edge[k] for k in ("cfg", "path", "op", "seed", "bytes", "pre", "post")}})
+                                         "config": tag, "edge": {k: edge[k] for k in ("cfg", "path", "op", "seed", "bytes", "pre", "post", "muts", "rate") if k in edge}})
                 elif v and v[0] == "DONE":
                     done += v[1]
         total = sum(s["edges"] for s in summary)
@@ -481,7 +481,7 @@ def guards_stage(tier_, key):
                         for m in v[1]:
                             edge = json.loads(lines[m[1] - 1])
                             findings.append({"kind": m[0], "tag": m[2], "why": m[3] if isinstance(m[3], str) else json.dumps(m[3]), "config": tag,
-                                             "edge": {k: edge[k] for k in ("cfg", "path", "op", "seed", "bytes", "pre", "post")}})
+                                             "edge": {k: edge[k] for k in ("cfg", "path", "op", "seed", "bytes", "pre", "post", "muts", "rate") if k in edge}})
                 os.remove(fp)
         return {"findings": findings[:1000], "drift": drift[:200],
                 "coverage": {"configs": [{"config": s["tag"], "abstract_states": s["rows"], "constructed_and_compared": s["compared"],
